@@ -1,10 +1,104 @@
-"""C09 — engine-level laws evaluated on the real engine after every step (see engine_props.py)."""
-import engine_props
+"""C09 — engine-level laws evaluated on the real engine after every step (see engine_props.py), plus the
+GetExecutionHistory readings of both REST front ends during runs: the forward reading is the stored log, the
+reverseOrder reading is exactly its reverse, reading is repeatable and leaves the stored log as it was."""
+import copy, json
+import common, engine_props, explore
+from common import cj
+
+
+def _clients(s):
+    """test clients of the asyncio (Quart) and blocking (Flask) front ends over the simulator's engine instance"""
+    inst = s.instances[0]
+    from asl_workflow_engine import rest_api_asyncio as amod
+    from asl_workflow_engine import rest_api as bmod
+    aapi = amod.RestAPI(inst.engine, inst.dispatcher, inst.config)
+    bapi = bmod.RestAPI(inst.engine, inst.dispatcher, inst.config)
+    return {"asyncio": (aapi.create_app().test_client(), inst.loop), "blocking": (bapi.create_app().test_client(), None)}
+
+
+def _get_history(client, ea, reverse):
+    cl, loop = client
+    params = {"executionArn": ea}
+    if reverse is not None:
+        params["reverseOrder"] = reverse
+    headers = {"x-amz-target": "AWSStepFunctions.GetExecutionHistory", "Content-Type": "application/x-amz-json-1.0"}
+    if loop is not None:
+        async def go():
+            r = await cl.post("/", data=json.dumps(params), headers=headers)
+            return r.status_code, (await r.get_data()).decode("utf8", "replace")
+        code, body = loop.run_until_complete(go())
+    else:
+        r = cl.post("/", data=json.dumps(params), headers=headers)
+        code, body = r.status_code, r.get_data().decode("utf8", "replace")
+    try:
+        doc = json.loads(body)
+    except ValueError:
+        doc = None
+    return code, doc
+
+
+def api_stream(chk, quick):
+    names = ("seq-task-wait", "seq-retry-then-ok", "par2-ok", "map3-mc1-ok", "par2-fail0", "seq-express")
+    scns = [x for x in engine_props.corpus(chk.rng, quick) if x.name in names]
+    n_reads = 0
+    for scn in scns:
+        for front in ("asyncio", "blocking"):
+            for pattern in ("every-step", "random"):
+                s, ea, pl = engine_props.start_scenario(scn)
+                cl = _clients(s)[front]
+                bad = None
+                steps = 0
+                while s.steps < 600 and bad is None:
+                    st = s.canonical_step()
+                    if st is None:
+                        break
+                    s.do(st)
+                    steps += 1
+                    if pattern == "random" and chk.rng.random() < 0.5:
+                        continue
+                    stored = copy.deepcopy(s.history(ea) or [])
+                    order = [False, True, None, True, False] if pattern == "every-step" else \
+                        [chk.rng.choice([False, True, None]) for _ in range(chk.rng.randint(1, 3))]
+                    for rev in order:
+                        code, doc = _get_history(cl, ea, rev)
+                        n_reads += 1
+                        now = s.history(ea) or []
+                        if scn.sm_type != "STANDARD" or not stored:
+                            if code == 200 and doc and doc.get("events"):
+                                bad = ("EXPRESS executions store no history / nothing before the start", {"code": code, "events": len(doc["events"])})
+                            break
+                        want = stored[::-1] if rev else stored
+                        if code != 200 or doc is None or cj(doc.get("events")) != cj(want):
+                            bad = ("GetExecutionHistory returns the stored log (reverseOrder: exactly its reverse)",
+                                   {"reverseOrder": rev, "code": code, "ids": [e.get("id") for e in (doc or {}).get("events", [])],
+                                    "stored_ids": [e.get("id") for e in stored]})
+                            break
+                        if cj(now) != cj(stored):
+                            bad = ("reading the history leaves the stored log as it was",
+                                   {"reverseOrder": rev, "stored_ids_before": [e.get("id") for e in stored], "after": [e.get("id") for e in now]})
+                            break
+                case = {"kind": "api-history", "scenario": scn.name, "frontend": front, "pattern": pattern, "machine": scn.machine,
+                        "input": scn.data, "plans": scn.plans, "steps": steps}
+                chk.count(cj([scn.name, front, pattern, [list(x) for x in s.trace]]), True)
+                chk.dist("api_history.%s.%s" % (front, pattern))
+                if s.errors:
+                    chk.report("impl-violates-law", case, impl={"errors": s.errors[:1]}, law="no exception escapes a handler")
+                elif bad is not None:
+                    chk.report("impl-violates-law", case, impl=bad[1], law="C09." + bad[0])
+                s.close()
+    chk.cov["streams"]["api_history_reads"] = n_reads
 
 
 def run(chk):
     engine_props.run_property(chk, "C09", ["C09"])
+    api_stream(chk, chk.tier == "quick")
 
 
 def replay(chk, path):
+    with open(path) as f:
+        rp = json.load(f)
+    if rp["case"].get("kind") == "api-history":
+        print("re-run the stream: the case names scenario / front end / reading pattern:", {k: rp["case"][k] for k in ("scenario", "frontend", "pattern")})
+        api_stream(chk, True)
+        return 0
     return engine_props.replay_case(chk, path)
